@@ -92,14 +92,16 @@ def main():
                 shutil.copyfile(fn, os.path.join(wt, os.path.basename(fn)))
                 demo_pkgs.add("./.")
         cmd = notes.get("demo_command") or "go test -count=1 ./..."
+        import re as _re
+        cmd = _re.split(r"\s+\(", cmd)[0].strip()  # drop trailing parenthetical remarks
         if "-count" not in cmd:
             cmd = cmd.replace("go test", "go test -count=1", 1)
         rc_with, out_with, _ = run(cmd, wt, timeout=900)
-        meta["demo_with_patch_fails"] = rc_with != 0
+        meta["demo_with_patch_fails"] = rc_with != 0 and ("FAIL" in out_with)
         meta["ran"].append(f"{cmd} with the patch: exit {rc_with}: {out_with.strip().splitlines()[-3:] if out_with.strip() else ''}")
         run(["git", "apply", "-R", patch], wt)
         rc_wo, out_wo, _ = run(cmd, wt, timeout=900)
-        meta["demo_without_patch_passes"] = rc_wo == 0
+        meta["demo_without_patch_passes"] = rc_wo == 0 and ("ok" in out_wo)
         meta["ran"].append(f"{cmd} without the patch: exit {rc_wo}: {out_wo.strip().splitlines()[-2:] if out_wo.strip() else ''}")
     finally:
         subprocess.run(["git", "-C", "/repo", "worktree", "remove", "--force", wt])
